@@ -29,9 +29,9 @@ FORWARDED = ['subset_state', 'axis', 'finite', 'positive', 'percentile']
 
 def run(ctx):
     ix = ctx.index
-    rule_a(ctx, ix)
-    rule_b(ctx, ix)
-    rule_c(ctx, ix)
+    ctx.guard(rule_a, ctx, ix)
+    ctx.guard(rule_b, ctx, ix)
+    ctx.guard(rule_c, ctx, ix)
 
 
 def _table(ix, mod, name):
